@@ -106,6 +106,8 @@ def _val(v: dict, ind: int) -> str:
         body = _items(items, ind + 2)
         for c in dang:
             body.append(_comment(c, ind + 2))
+        if _LOOSE["on"]:       # non-canonical but valid: blank lines behind the opening and in front of the closing brace
+            return pre + "{\n\n" + "\n".join(body) + "\n\n" + " " * ind + "}"
         return pre + "{\n" + "\n".join(body) + "\n" + " " * ind + "}"
     return pre + "{ " + " ".join(_item_inline(x) for x in items) + " }"
 
@@ -114,7 +116,8 @@ def _binding_core(x: dict, ind: int) -> str:
     if x["k"] == "i":
         src = f"({x['src']}) " if x.get("src") else ""
         return f"inherit {src}{' '.join(quote_name(n) for n in x['names'])};"
-    return f"{'.'.join(quote_name(n) for n in x['ap'])} = {_val(x['val'], ind)};"
+    eq = "  =  " if _LOOSE["on"] else " = "
+    return f"{'.'.join(quote_name(n) for n in x['ap'])}{eq}{_val(x['val'], ind)};"
 
 
 def _item_inline(x: dict) -> str:
@@ -147,14 +150,23 @@ WRAP_TEXT = {
 }
 
 
-def render_doc(d: dict, in_comments: bool = False) -> str:
+_LOOSE = {"on": False}
+
+
+def render_doc(d: dict, in_comments: bool = False, loose: bool = False) -> str:
     """Canonical text of an editable document (shape "ok").  in_comments: an own-line comment follows every `in'
-    (trivia that belongs to the let layers themselves)."""
-    inner = _val(d["body"], 0)
-    n = len(d["layers"])
-    for k, layer in enumerate(reversed(d["layers"])):
-        note = f"# after in {n - k}\n" if in_comments else ""
-        inner = "let\n" + "\n".join(_items(layer, 2)) + "\nin\n" + note + inner
+    (trivia that belongs to the let layers themselves).  loose: the same document in a valid but non-canonical
+    layout (blank lines behind `{', `let', `in' and in front of `}', `in'; padded `=')."""
+    _LOOSE["on"] = loose
+    try:
+        inner = _val(d["body"], 0)
+        n = len(d["layers"])
+        gap = "\n\n" if loose else "\n"
+        for k, layer in enumerate(reversed(d["layers"])):
+            note = f"# after in {n - k}\n" if in_comments else ""
+            inner = "let" + gap + "\n".join(_items(layer, 2)) + gap + "in" + gap + note + inner
+    finally:
+        _LOOSE["on"] = False
     for w in reversed(d["wrap"]):
         pre, post = WRAP_TEXT[w]
         inner = pre + inner + post
